@@ -1,15 +1,15 @@
 """Renderer and expectations for FortranScopes.tla behaviours."""
 from __future__ import annotations
 
-PFX = {"o": "op", "pp": "pp", "iface_op": "op", "a": "a", "module": "mod", "program": "prg", "sub": "sub", "fun": "fun", "t": "typ", "g": "gen", "v": "v", "b": "b",
+PFX = {"submodule": "smod", "o": "op", "pp": "pp", "iface_op": "op", "a": "a", "module": "mod", "program": "prg", "sub": "sub", "fun": "fun", "t": "typ", "g": "gen", "v": "v", "b": "b",
        "x": "x", "nomod": "nomod", "type": "typ", "iface_named": "gen", "ibody": "ibd"}
-ENDKW = {"iface_op": "interface", "module": "module", "program": "program", "sub": "subroutine", "fun": "function", "ibody_sub": "subroutine",
+ENDKW = {"submodule": "submodule", "iface_op": "interface", "module": "module", "program": "program", "sub": "subroutine", "fun": "function", "ibody_sub": "subroutine",
          "ibody_fun": "function", "type": "type", "iface_named": "interface", "iface_abstract": "interface",
          "block": "block", "do": "do", "if": "if", "select": "select", "associate": "associate", "where": "where"}
 OPEN_CONSTRUCT = {"block": "block", "do": "do", "if": "if (.true.) then", "select": "select case (1)",
                   "associate": "associate (q => 1)", "where": "where ([1] > 0)"}
 # LSP SymbolKind sets admissible per class (the property says "the right kind", not which protocol number)
-KINDS = {"module": {2}, "program": {2}, "sub": {12, 6}, "fun": {12, 6}, "type": {5, 23}, "iface_named": {11},
+KINDS = {"module": {2}, "submodule": {2}, "program": {2}, "sub": {12, 6}, "fun": {12, 6}, "type": {5, 23}, "iface_named": {11},
          "component": {13, 8, 7}, "binding": {6, 12}, "var": {13}}
 
 
@@ -43,6 +43,8 @@ def stmt_text(prog, i, ibody_kinds):
             return "module " + n
         if kind == "program":
             return "program " + n
+        if kind == "submodule":
+            return "submodule (%s) %s" % (nm(st["parent"]), n)
         arg = nm(st["arg"]) if st.get("arg") else ""
         if kind == "sub":
             return "subroutine %s(%s)" % (n, arg)
@@ -137,7 +139,7 @@ def expected_outline(st):
     """Required documentSymbol entries: list of dict(name, kinds, container, sline, eline or None)."""
     req = []
     for c in st["closed"]:
-        if c["depth"] <= 2 and c["kind"] in ("module", "program", "sub", "fun", "type", "iface_named"):
+        if c["depth"] <= 2 and c["kind"] in ("module", "submodule", "program", "sub", "fun", "type", "iface_named"):
             req.append({"name": nm(c["name"]), "kinds": KINDS[c["kind"]], "container": nm(c["container"]) if c["depth"] == 2 else None,
                         "sline": c["sline"] - 1, "eline": c["eline"] - 1, "class": c["kind"]})
     # components and bindings of types declared directly inside a program unit
